@@ -1,4 +1,6 @@
-(* C02/Props.v — property-level theorems only. Tags [FULL]/[PARTIAL]/[REFUTED] are read by bin/check. *)
+(* C02/Props.v — property-level theorems only. Tags [FULL]/[PARTIAL]/[REFUTED] are read by bin/check.
+   The model is Raft/Core.v (every handler of pkg/raft/raft transcribed, each log.Fatalf an explicit outcome), tied to the
+   Go code on every run by the correspondence of Raft/Wire.v.run_case with the real `core` objects. *)
 From Coq Require Import List NArith ZArith.
 From BLB Require Import Raft.Core C02.Proofs.
 Import ListNotations.
@@ -9,3 +11,21 @@ Theorem term_written_only_by_save_state :
   forall p m, p_term (apply_mut p m) <> p_term p -> exists v t, m = MSaveState v t.
 Proof. exact C02.Proofs.term_written_only_by_save_state. Qed.
 Print Assumptions term_written_only_by_save_state.
+
+(* [FULL] invariant E1 of election safety, for every node state whatsoever, every event (delivery of any message, tick,
+   proposal, reconfiguration request, snapshot, restart) and every crash point k inside the event followed by
+   restart: the durable term never decreases *)
+Theorem term_monotone :
+  forall s ev k crashed st s',
+    run_event_crash s ev k = Ret (crashed, st, s') -> p_term (n_p s) <= p_term (n_p s').
+Proof. exact term_monotone_lemma. Qed.
+Print Assumptions term_monotone.
+
+(* [FULL] invariant E2, vote once per term with persistence across Restart and across a crash at any durable mutation:
+   while the term stays the same a vote that has been cast is never changed or forgotten *)
+Theorem vote_once_per_term :
+  forall s ev k crashed st s',
+    run_event_crash s ev k = Ret (crashed, st, s') ->
+    p_term (n_p s') = p_term (n_p s) -> p_vote (n_p s) <> 0 -> p_vote (n_p s') = p_vote (n_p s).
+Proof. exact vote_once_per_term_lemma. Qed.
+Print Assumptions vote_once_per_term.
